@@ -63,15 +63,17 @@ Proof. exact all_obey_b_sound. Qed.
 Print Assumptions C01_checker_sound.
 
 (** VerifyCommit (model of types/validator_set.go, C01/Sync.v): an accepted commit is for the wanted
-    height and block, has one slot per validator, every present slot carries the signature of the
-    validator OF THAT SLOT (so the tally is over distinct validators), and the slots that count hold
-    more than two thirds of the total power. *)
+    height and block, has one slot per validator, every present slot carries the ADDRESS and the
+    signature of the validator OF THAT SLOT (so the tally is over distinct validators, and the block
+    time, weighted by the slots' addresses, is weighted by the signers), and the slots that count
+    hold more than two thirds of the total power. *)
 Theorem C01_verify_commit_sound :
   forall (B : Type) (B_eq_dec : forall x y : B, {x = y} + {x <> y}) powers hw want oc,
     verify_commit B B_eq_dec powers hw want oc = VOk ->
     exists c, oc = Some c /\ c_height B c = hw /\ c_block B c = want /\
               length (c_slots B c) = length powers /\
               (forall i, (i < length powers)%nat -> s_flag (nth i (c_slots B c) absent_slot) <> FAbsent ->
+                         s_addr (nth i (c_slots B c) absent_slot) = Some i /\
                          s_signer (nth i (c_slots B c) absent_slot) = Some i) /\
               2 * total powers < 3 * pw powers (counted B want (c_slots B c)).
 Proof. exact verify_commit_sound. Qed.
